@@ -60,6 +60,14 @@ ProvCreateMixes == {[t \in Threads |-> IF t = "t1" THEN a ELSE b] :
                        a \in {Op("pclose", "prov", NONE), Op("close", "s1", NONE)},
                        b \in {Op("create", "prov", NONE), Op("create", "s1", NONE)}}
 
+\* a tree three levels deep (s1 - s2 - s3, every level holding instances): the Close of the middle scope overlapping the
+\* Close of the top one, and a user of the grandchild
+DeepMixes == {[t \in Threads |-> IF t = "t1" THEN Op("close", "s2", NONE) ELSE IF t = "t2" THEN b ELSE c] :
+                 b \in {Op("close", "s1", NONE)},
+                 c \in {Op("get", "s3", "A")}}
+DeepCloseMixes == {[t \in Threads |-> IF t = "t1" THEN Op("close", "s2", NONE) ELSE b] :
+                 b \in {Op("close", "s1", NONE), Op("pclose", "prov", NONE), Op("cancel", "s1", NONE), Op("close", "s3", NONE)}}
+PreDeep == {<<"s1", "B">>, <<"s1", "A">>, <<"s2", "B">>, <<"s3", "B">>, <<"s3", "A">>}
 PreNone == {}
 PreAB == {<<"s1", "B">>, <<"s1", "A">>, <<"s2", "B">>, <<"s2", "A">>}
 PreS1 == {<<"s1", "B">>, <<"s1", "A">>}
